@@ -25,9 +25,11 @@ import (
 	"testing"
 	"time"
 
+	"github.com/brewlin/net-protocol/pkg/waiter"
 	tcpip "github.com/brewlin/net-protocol/protocol"
 	"github.com/brewlin/net-protocol/protocol/network/ipv4"
 	"github.com/brewlin/net-protocol/protocol/network/ipv6"
+	"github.com/brewlin/net-protocol/protocol/transport/ping"
 	"pgregory.net/rapid"
 
 	"verifharness/codec"
@@ -81,6 +83,22 @@ type Case struct {
 	// 2 assigns it again. A request to that address counts as addressed to
 	// someone else while the address is removed.
 	Ops []int `json:"ops,omitempty"`
+	// Pings: ICMP messages an application writes through a ping socket before
+	// burst At. Whatever the application hands in, the stack must not emit an
+	// echo reply for it (a reply that corresponds to no request).
+	Pings []PingW `json:"pings,omitempty"`
+}
+
+// PingW is one Write on a ping socket.
+type PingW struct {
+	At   int    `json:"at"`
+	V6   bool   `json:"v6"`
+	Type uint8  `json:"type"`
+	Code uint8  `json:"code"`
+	ID   uint16 `json:"id"`
+	Seq  uint16 `json:"seq"`
+	PLen int    `json:"plen"`
+	Conn bool   `json:"conn"` // Connect first and Write without address
 }
 
 // ---------------------------------------------------------------------------
@@ -538,7 +556,7 @@ func runOnce(c Case, deadline time.Duration, rec bool) (fail, miss *evid.Failure
 		mtu = 1500
 	}
 	tap := netsim.NewTap(uint32(mtu))
-	addrs := netsim.StackCfg{Addrs4: []tcpip.Address{netsim.A4, netsim.B4}, Addrs6: []tcpip.Address{netsim.A6, netsim.B6}}
+	addrs := netsim.StackCfg{Addrs4: []tcpip.Address{netsim.A4, netsim.B4}, Addrs6: []tcpip.Address{netsim.A6, netsim.B6}, Ping: len(c.Pings) > 0}
 	st := netsim.NewStack(tap, addrs)
 	defer func() { // lets the per-address echo goroutines end
 		for _, a := range append(addrs.Addrs4, addrs.Addrs6...) {
@@ -599,6 +617,39 @@ func runOnce(c Case, deadline time.Duration, rec bool) (fail, miss *evid.Failure
 				if rec {
 					evid.Label("op:re-add-address")
 				}
+			}
+		}
+		for _, pw := range c.Pings {
+			if pw.At != bi {
+				continue
+			}
+			trans, netp, to := tcpip.TransportProtocolNumber(ping.ProtocolNumber4), tcpip.NetworkProtocolNumber(ipv4.ProtocolNumber), tcpip.Address(reqr4[0])
+			if pw.V6 {
+				trans, netp, to = ping.ProtocolNumber6, ipv6.ProtocolNumber, tcpip.Address(reqr6[0])
+			}
+			var wq waiter.Queue
+			ep, perr := st.NewEndpoint(trans, netp, &wq)
+			if perr != nil {
+				continue
+			}
+			n := pw.PLen
+			if n > 1400 {
+				n = 1400
+			}
+			msg := make([]byte, 8+n)
+			msg[0], msg[1] = pw.Type, pw.Code
+			msg[4], msg[5], msg[6], msg[7] = byte(pw.ID>>8), byte(pw.ID), byte(pw.Seq>>8), byte(pw.Seq)
+			copy(msg[8:], payload(2, uint32(pw.ID)<<16|uint32(pw.Seq), n))
+			wo := tcpip.WriteOptions{To: &tcpip.FullAddress{Addr: to}}
+			if pw.Conn {
+				if ep.Connect(tcpip.FullAddress{Addr: to}) == nil {
+					wo = tcpip.WriteOptions{}
+				}
+			}
+			ep.Write(tcpip.SlicePayload(msg), wo)
+			ep.Close()
+			if rec {
+				evid.Label(fmt.Sprintf("ping-socket-write:type%d", pw.Type))
 			}
 		}
 		hold := bi < len(c.Hold) && c.Hold[bi]
@@ -1020,6 +1071,17 @@ func genCase(rt *rapid.T) Case {
 		c.Bursts = append(c.Bursts, burst)
 		c.Hold = append(c.Hold, b.hold)
 		c.Ops = append(c.Ops, rapid.SampledFrom([]int{0, 0, 0, 0, 0, 1, 1, 2}).Draw(rt, "addr-op"))
+	}
+	// ping-socket writes (an application hands arbitrary ICMP messages to the stack)
+	for i, n := 0, rapid.SampledFrom([]int{0, 0, 0, 1, 2, 3}).Draw(rt, "npings"); i < n; i++ {
+		v6 := rapid.Bool().Draw(rt, "ping-v6")
+		typ := uint8(rapid.SampledFrom([]int{8, 0, 0, 3, 13, 255}).Draw(rt, "ping-type"))
+		if v6 {
+			typ = uint8(rapid.SampledFrom([]int{128, 129, 129, 1, 135, 255}).Draw(rt, "ping-type6"))
+		}
+		c.Pings = append(c.Pings, PingW{At: rapid.IntRange(0, len(c.Bursts)-1).Draw(rt, "ping-at"), V6: v6, Type: typ,
+			Code: uint8(rapid.SampledFrom([]int{0, 0, 0, 1, 255}).Draw(rt, "ping-code")), ID: 0xabc0 + uint16(i), Seq: 0xdef0 + uint16(i),
+			PLen: rapid.SampledFrom([]int{0, 1, 8, 56, 1400}).Draw(rt, "ping-plen"), Conn: rapid.Bool().Draw(rt, "ping-conn")})
 	}
 	return c
 }
